@@ -46,7 +46,7 @@ LABEL_SCHEMES = ["default", "default", "default", "reversed", "offset", "gappy",
 
 
 # ---------------------------------------------------------------------------------------------- chart building
-def _build(notes, events=(), labels=None, int_offsets=False):
+def _build(notes, events=(), labels=None, int_offsets=False, timing=None):
     """notes: [[time, column, length | None, hitsound bits, volume, file name (, [sample set, addition set, custom set])]] in
     list order.  labels: {"hits" | "holds" | "samples": [row labels]} (default 0..n-1).  int_offsets: the offset columns
     of lists whose times are all whole numbers are typed int64."""
@@ -61,6 +61,12 @@ def _build(notes, events=(), labels=None, int_offsets=False):
 
     m = OsuMap()
     m.bpms = OsuBpmList([OsuBpm(0.0, 120.0)])
+    if timing:
+        # dimension 17: tempo points / SVs before the first note, after the last note, on a note's time; rows in the given order
+        from reamber.osu import OsuSv
+        from reamber.osu.lists import OsuSvList
+        m.bpms = OsuBpmList([OsuBpm(float(t), float(b)) for t, b in timing.get("bpms") or [[0.0, 120.0]]])
+        m.svs = OsuSvList([OsuSv(float(t), float(x)) for t, x in timing.get("svs") or []])
     m.hits = OsuHitList([OsuHit(offset=n[0], column=n[1], hitsound_set=n[3], volume=n[4], hitsound_file=n[5], **sets(n)) for n in notes if n[2] is None])
     m.holds = OsuHoldList([OsuHold(offset=n[0], column=n[1], length=n[2], hitsound_set=n[3], volume=n[4], hitsound_file=n[5], **sets(n)) for n in notes if n[2] is not None])
     m.samples = OsuSampleList([OsuSample(offset=t, sample_file=f, volume=v) for t, f, v in events])
@@ -81,7 +87,17 @@ def _freeze(m):
     out = {}
     for k in ("hits", "holds", "bpms", "svs", "samples"):
         df = getattr(m, k).df
-        out[k] = (list(df.columns), repr(df.to_numpy().tolist()), repr(df.index.tolist()), repr(df.dtypes.tolist()))
+        out[k] = (list(df.columns), repr(df.to_numpy().tolist()), repr(df.index.tolist()), repr(df.dtypes.tolist()),
+                  # dimension 15: the class of the list, the type of its row labels and the type of every cell (1 / 1.0 / True / numpy scalars)
+                  type(getattr(m, k)).__name__, str(df.index.dtype), repr([[type(v).__name__ for v in df[c].tolist()] for c in df.columns]) if df.columns.is_unique else "")
+    # ... and every other attribute of the chart with its exact type (a preview time re-typed int -> float IS a modification)
+    import dataclasses
+    from reamber.base.lists.TimedList import TimedList
+    for f in dataclasses.fields(m):
+        v = getattr(m, f.name, None)
+        if f.name == "objs" or isinstance(v, TimedList):
+            continue
+        out["field:" + f.name] = (type(v).__name__, repr(v), repr([type(x).__name__ for x in v]) if isinstance(v, (list, tuple)) else "")
     return out
 
 
@@ -158,8 +174,9 @@ def _edit_inputs(src, tgt, edits):
 def _run_case(case):
     src_notes, tgt_notes = case["src"], case["tgt"]
     lab, ints = case.get("labels", {}), case.get("int_offsets", {})
-    src = _build(src_notes, case.get("src_events", ()), lab.get("src"), ints.get("src", False))
-    tgt = src if case.get("same_object") else _build(tgt_notes, case.get("tgt_events", ()), lab.get("tgt"), ints.get("tgt", False))
+    tim = case.get("timing", {})
+    src = _build(src_notes, case.get("src_events", ()), lab.get("src"), ints.get("src", False), tim.get("src"))
+    tgt = src if case.get("same_object") else _build(tgt_notes, case.get("tgt_events", ()), lab.get("tgt"), ints.get("tgt", False), tim.get("tgt"))
     failed, res = _check_call(src, tgt, src_notes, tgt_notes, case.get("src_events", ()), independence=case.get("then") is None)
     then = case.get("then")
     if then is not None and then["role"] == "edited" and res is not None and not failed:
@@ -206,10 +223,11 @@ def _check_call(src, tgt, src_notes, tgt_notes, src_events, independence=True):
     failed = []
 
     # neither input is modified
-    if _freeze(src) != f_src:
-        failed.append(("source_not_modified", "source chart differs after the call"))
-    if _freeze(tgt) != f_tgt:
-        failed.append(("target_not_modified", "target chart differs after the call"))
+    g_src, g_tgt = _freeze(src), _freeze(tgt)
+    if g_src != f_src:
+        failed.append(("source_not_modified", "source chart differs after the call: " + "; ".join(f"{k}: {f_src[k]!r} -> {g_src.get(k)!r}"[:300] for k in f_src if g_src.get(k) != f_src[k])[:600]))
+    if g_tgt != f_tgt:
+        failed.append(("target_not_modified", "target chart differs after the call: " + "; ".join(f"{k}: {f_tgt[k]!r} -> {g_tgt.get(k)!r}"[:300] for k in f_tgt if g_tgt.get(k) != f_tgt[k])[:600]))
 
     _check_result(res, src_notes, tgt_notes, src_events, failed)
 
@@ -424,6 +442,19 @@ def _random_case(rng):
                 arg = rng.choice(pool)      # appended notes sit on a time of the pool
             edits.append([kind, arg])
         case["then"] = dict(role="edited", edits=edits)
+    if rng.random() < 0.3:
+        # dimension 17: which KIND of object is first / last in each chart: tempo points and SVs before every note, after every note, exactly on
+        # the first / last note, the first note before the first tempo point; rows of the tempo list not in time order
+        tim = {}
+        for side in ("src", "tgt"):
+            ts_ = sorted(float(n[0]) for n in case[side]) or [0.0]
+            lo, hi = ts_[0], ts_[-1]
+            bp = rng.choice([[[hi + 1000.0, 150.0], [lo - 1000.0, 120.0]], [[lo, 120.0], [hi, 90.0]], [[lo + 1.0, 120.0]], [[hi + 500.0, 200.0]], [[lo - 0.5, 60.0], [(lo + hi) / 2, 180.0], [hi + 0.5, 240.0]]])
+            sv = rng.choice([[], [[lo - 2000.0, 0.5]], [[lo, 2.0], [hi + 2000.0, 0.75]], [[hi, 1.5], [lo - 1.0, 0.25]]])
+            if rng.random() < 0.8:
+                tim[side] = dict(bpms=bp, svs=sv)
+        if tim and not case.get("same_object"):
+            case["timing"] = tim
     if rng.random() < 0.15:
         # the upper end of the column range (18 keys): target / source notes in columns up to 17
         for n in case["src"] + (case["tgt"] if not case.get("same_object") else []):
@@ -491,7 +522,7 @@ def _stats(case):
     return s
 
 
-@bounded("C18", note="real hitsound_copy on pairs of small osu charts (<= 4 times, <= 3-4 notes per time and side, all 8 hitsound bit sets, volumes {0,20,30}, 0-4 named samples per time, hits and holds; 55% with further dimensions: row labels, int-typed offsets, charts lacking a kind of note, unusual names / volumes, source event samples, same chart twice, a second call on the first result) against the statement's clauses")
+@bounded("C18", note="real hitsound_copy on pairs of small osu charts (<= 4 times, <= 3-4 notes per time and side, all 8 hitsound bit sets, volumes {0,20,30}, 0-4 named samples per time, hits and holds; 55% with further dimensions: row labels, int-typed offsets, tempo points / SVs before the first, after the last and on the first / last note of either chart, charts lacking a kind of note, unusual names / volumes, source event samples, same chart twice, a second call on the first result) against the statement's clauses")
 def hitsound_copy_vs_statement(rep):
     rng = rep.rng
     N = rep.n(1200, 40000)
